@@ -9,6 +9,7 @@ from ..cskel import Skel, strip_comments
 from ..odemodel import model, FILE
 from ..pymodel import package
 from ..valueflow import walk as walk_
+from ..valueflow import subst as subst_
 from ..valueflow import Flow, lower, match, V, show, simp
 
 EXPLANATION = (
@@ -289,6 +290,23 @@ def _r2_r5(ctx, m):
                 if a and a[0] == "join" and a[2][0] == "acc":
                     rows_name = a[2][1]
         rd = []
+        rows_val = None
+        for f in rf.facts:
+            if f.kind == "call" and f.target == "write" and f.value and "jac_pattern.dat" in show(f.value[1]):
+                a = simp(f.value[3][0]) if f.value[3] else None
+                if a and a[0] == "join" and a[2][0] == "comp":
+                    rows_val = a[2]
+        if rows_val is not None and len(rows_val[3]) == 1 and simp(rows_val[2])[0] == "join":
+            # the rows as one comprehension: [" ".join(str(e) for e in pattern[r*n:(r+1)*n]) for r in range(n)]
+            e_ = simp(rows_val[2])
+            if e_[2][0] == "comp" and len(e_[2][3]) == 1:
+                tg_, it_, ifs_ = rows_val[3][0]
+
+                class _L:       # duck-typed loop record
+                    pass
+                lp_ = _L()
+                lp_.iter, lp_.id = it_, None
+                rd.append((subst_(e_[2][3][0][1], {tg_: ("elem", simp(it_), None)}), [lp_], (), getattr(fn, "lineno", 0), None))
         for f in rf.facts:
             if f.kind == "append" and f.target == rows_name:
                 a = simp(f.value)
